@@ -6,10 +6,12 @@ import (
 	"bytes"
 	"encoding/hex"
 	"fmt"
+	"io"
 	"time"
 
 	"go.uber.org/thriftrw/protocol/binary"
 	"go.uber.org/thriftrw/wire"
+	"verif/bridge/chunk"
 	"verif/bridge/wirex"
 	"verif/engine/ev"
 	"verif/ref/tbin"
@@ -22,7 +24,7 @@ var Check = &ev.Check{
 	Rule: "every wire value of the C02 domain (all 11 wire types; scalars over boundary alphabets incl. 8 double bit patterns; " +
 		"containers/structs of width<=2 over the full scalar alphabet at depth 1 and over representatives of the previous level at depth 2 (quick) / 3 (thorough); " +
 		"field ids from {1,-1,0,32767,-32768}; empty containers of every element type; thorough adds binaries of 1MiB-1, 1MiB, 1MiB+1). " +
-		"Values are distinct by construction; non-trivial = every value (each has its own byte image). Per value 5 product paths are compared with the independent spec codec.",
+		"Values are distinct by construction; non-trivial = every value (each has its own byte image). Per value the value encoder, the stream writer, Decode, ReadValue, Decode over a short-reading ReaderAt and the primitive stream walk under read segmentations (whole, all-1-byte, first-read-1-byte, zero-length reads, every single cut for encodings <=24 bytes) are compared with the independent spec codec.",
 	Run:    run,
 	Budget: func(t string) time.Duration { return map[string]time.Duration{"quick": 3 * time.Minute, "thorough": 25 * time.Minute}[t] },
 	Assumptions: []string{
@@ -132,19 +134,49 @@ func one(w *ev.W, v tbin.Value) {
 		w.Violation("readvalue-error:"+v.T.String(), fmt.Sprintf("ReadValue(%s): %v", key, err), rep)
 	}
 
-	// 4. stream reader over a non-seekable reader
-	sr := binary.Default.Reader(onlyReader{bytes.NewReader(ref)})
-	sv, err := wirex.StreamRead(sr, v.T)
-	sr.Close()
-	if err != nil {
-		w.Violation("stream-read-error:"+v.T.String(), fmt.Sprintf("stream reader walk of %s failed: %v", key, err), rep)
-	} else if sv.Key() != key {
-		w.Violation("stream-read-value:"+v.T.String(), fmt.Sprintf("stream reader walk of %s = %s", key, sv.Key()), rep)
-	} else {
+	// 4. stream reader over a non-seekable reader, under read segmentations:
+	// whole, all-1-byte, first read 1 byte, zero-length reads; every single
+	// cut for encodings <= 24 bytes.
+	for _, ck := range chunk.All(len(ref), len(ref) <= 24, false) {
+		cr := ck.New(ref)
+		sr := binary.Default.Reader(cr)
+		sv, err := wirex.StreamRead(sr, v.T)
+		sr.Close()
+		w.Count("stream_read_runs", 1)
+		if err != nil {
+			w.Violation("stream-read-error:"+v.T.String(), fmt.Sprintf("stream reader walk of %s (reads: %s) failed: %v", key, ck.Name, err), rep)
+			break
+		} else if sv.Key() != key {
+			w.Violation("stream-read-value:"+v.T.String(), fmt.Sprintf("stream reader walk of %s (reads: %s) = %s", key, ck.Name, sv.Key()), rep)
+			break
+		} else if cr.Pos != len(ref) {
+			w.Violation("stream-read-length:"+v.T.String(), fmt.Sprintf("stream reader walk of %s (reads: %s) drew %d of %d bytes", key, ck.Name, cr.Pos, len(ref)), rep)
+			break
+		}
 		w.Outcome("sread-ok:" + v.T.String())
+	}
+	// 5. random-access decoder over a ReaderAt that serves short reads
+	dv2, err := binary.Default.Decode(shortReaderAt{ref}, wire.Type(v.T))
+	if err != nil {
+		w.Violation("decode-short-readat:"+v.T.String(), fmt.Sprintf("Decode(%s) over a ReaderAt failed: %v", key, err), rep)
+	} else if got, ferr := wirex.FromWire(dv2); ferr != nil || got.Key() != key {
+		w.Violation("decode-short-readat:"+v.T.String(), fmt.Sprintf("Decode(%s) over a ReaderAt = %s err=%v", key, got.Key(), ferr), rep)
 	}
 }
 
-type onlyReader struct{ r *bytes.Reader }
+// shortReaderAt is a conforming io.ReaderAt (ReadAt fills p or returns an
+// error) that returns io.EOF together with the final bytes, which the
+// io.ReaderAt contract allows.
+type shortReaderAt struct{ b []byte }
 
-func (o onlyReader) Read(p []byte) (int, error) { return o.r.Read(p) }
+func (s shortReaderAt) ReadAt(p []byte, off int64) (int, error) {
+	if off >= int64(len(s.b)) {
+		return 0, io.EOF
+	}
+	n := copy(p, s.b[off:])
+	if n < len(p) || off+int64(n) == int64(len(s.b)) {
+		return n, io.EOF
+	}
+	return n, nil
+}
+
